@@ -192,7 +192,8 @@ def l3(ctx):
         yield Ob(key_of("C16-L3", b.path, "check-first"), ok, "%s: check_capacity precedes every write%s" % (name, "" if name == "alloc" else " and is mapped with invalid_input"), b.loc())
 
 
-@rule("C16-L4", "C16", 2, "reserved_slice() = (ptr, reserved) (empty when reserved == 0); reserved_bytes() = reserved")
+@rule("C16-L4", "C16", 2, "reserved_slice() = (ptr, reserved) (empty when reserved == 0); reserved_bytes() = reserved (checksum() skips reserved_slice().len() bytes, C19 speaks of "
+      "reserved_bytes(): the two must be the same number)", also=("C19",))
 def l4(ctx):
     SELF = ("param", 0, "self")
     for fl in ("sync", "unsync"):
@@ -378,6 +379,38 @@ def l9(ctx):
             okh = okh and bool(offs)
             ok = okw and okh
         yield Ob(key_of("C16-L9", b.path, "unified-writes"), ok, "%s: write_sanity(freelist, magic_version, [reserved..]) and header = H::new(data_offset, min_segment_size)" % name, b.loc())
+
+
+@rule("C16-L12", "C16", lambda cfg: 5 if "memmap" in cfg else 1, "the identification block is at offset `reserved`, align_of::<H>() bytes long, in every unified arena: each "
+      "constructor writes it there (write_sanity(.., memory[reserved..])) and both reopening paths of a file validate exactly mapping[reserved .. reserved + align_of H] (a "
+      "writer and validators that agree on another place, say the slot in front of the header, round-trip their own files but differ from the Vec / anonymous-map image "
+      "whenever reserved is not a multiple of the header alignment)", also=("C05", "C09"))
+def l12(ctx):
+    for nm, pat, _, _ in constructors(ctx):
+        b = ctx.facts.one(pat)
+        ev, res = ctx.eval(b, no_inline=(r"::mlock$", r"^sanity_check$", r"^write_sanity$"))
+        for e in res.log:
+            if e["kind"] != "call" or e["callee"] not in ("sanity_check", "write_sanity") or len(e["args"]) < 3:
+                continue
+            sl = e["args"][2]
+            ok = False
+            got = short(sl, 120)
+            if e["callee"] == "sanity_check":
+                rng = None
+                if tag(sl) == "call" and sl[1].endswith("::index") and len(sl[2]) == 2 and tag(sl[2][1]) == "struct" and sl[2][1][1].endswith("ops::Range"):
+                    rng = (struct_get(sl[2][1], "start"), struct_get(sl[2][1], "end"))
+                if rng is not None and rng[0] is not None and rng[1] is not None:
+                    st, en = norm_reserved(canon(rng[0])), norm_reserved(canon(rng[1]))
+                    ok = st == R and term_eq(en, add(R, A)) and "mmap" in show(sl[2][0])
+                    got = "[%s .. %s]" % (show(st), show(en))
+            else:
+                if tag(sl) == "slice":
+                    base = as_lin(norm_reserved(canon(sl[1])))
+                    others = [x for x in base.m if x != R]
+                    ok = base.m.get(R) == 1 and base.c == 0 and len(others) == 1 and base.m[others[0]] == 1 and not mentions(others[0], R) \
+                        and (sl[2] == A or (is_const(sl[2]) and as_lin(sl[2]).c >= 8))
+                    got = "(%s, %s)" % (short(sl[1], 80), show(sl[2]))
+            yield Ob(key_of("C16-L12", b.path, e["callee"] + "-at-reserved"), ok, "%s: %s reads / writes %s, expected mapping[reserved .. reserved + align_of H]" % (nm, e["callee"], got), ctx.loc(e))
 
 
 @rule("C16-L10", "C16", 2, "the header is written into the arena as a whole value (ptr::write of H::new(..)): a repr(C) struct with padding bytes copies uninitialised bytes with it, so "
